@@ -550,7 +550,13 @@ func initialState(r *gen.Rand) ref.TSPacket {
 	if r.Chance(3) {
 		L = r.PickInt([]int{1, 2, 7, 8, 13, 14, 181, 182})
 	}
-	return ref.GenTSPacket(r, 3, L)
+	m := ref.GenTSPacket(r, 3, L)
+	if r.Chance(8) {
+		// "adaptation_field_length 1..183, with or without payload": the payload flag is clear although the
+		// field ends before byte 188; the bytes behind the field are still not the setters' to touch
+		m.Hdr[3] &^= 0x10
+	}
+	return m
 }
 
 // concrete alphabet for the bounded-exhaustive sequences
